@@ -349,6 +349,24 @@ class Puppy(Pet):
     kind: str = "Puppy"
 Inherited = Union[Kitten, Puppy]
 
+# two nested discriminated classes, alternatives at different depths of the hierarchy
+@discriminator("type")
+@dataclass
+class NShape:
+    pass
+@discriminator("sort")
+@dataclass
+class NPolygon(NShape):
+    pass
+@dataclass
+class NTriangle(NPolygon):
+    n: int = 0
+@dataclass
+class NCircle(NShape):
+    x: int = 0
+NestedDepths = Union[NTriangle, NCircle]
+NestedDepthsRev = Union[NCircle, NTriangle]
+
 class TD1(TypedDict):
     type: Literal["one"]
     v: int
@@ -376,6 +394,8 @@ EXPECT = {
     "WithAliasedLiteral": (WithAliasedLiteral, "type", {"Cat": Cat, "eel": Eel, "anguilla": Eel}, {Eel}),
     "Inherited": (Inherited, "kind", {"Kitten": Kitten, "Puppy": Puppy}, {Puppy}),
     "PetBase": (Pet, "kind", {"Kitten": Kitten, "Puppy": Puppy}, {Puppy}),
+    "NestedDepths": (NestedDepths, "type", {"NTriangle": NTriangle, "NCircle": NCircle}, set()),
+    "NestedDepthsRev": (NestedDepthsRev, "type", {"NTriangle": NTriangle, "NCircle": NCircle}, set()),
     "TDU": (TDU, "type", {"one": TD1, "two": TD2}, {TD1, TD2}),
 }
 '''
